@@ -89,6 +89,12 @@ int main(void){ sexp ctx = sexp_make_eval_context(NULL, NULL, NULL, 0, 0); sexp 
     return rc == 1, o
 
 
+GROUPS.append({"label": "proved", "name": "alloc_policy", "harness": "harness/C10/alloc.c", "entry": "h_alloc", "flags": ["-I@BUILD@/shim_small"],
+               "stubs": ["sexp_try_alloc", "sexp_gc", "sexp_heap_total_size", "sexp_grow_heap"], "stub_src": ["harness/C10/allocstubs.c"], "unwind": 4, "min_obligations": 6, "timeout": 300, "mem_gb": 4,
+               "functions": ["gc.c:sexp_alloc"],
+               "assumptions": ["sexp_try_alloc, sexp_gc, sexp_heap_total_size, sexp_grow_heap replaced by contract stubs with symbolic results (try_alloc and the collector are the subject of the other groups; sexp_grow_heap / sexp_make_heap call malloc / mmap and are not under contract)",
+                               "sizes below 2^32 (the policy compares them through double arithmetic)"],
+               "instances": [{"name": "all"}]})
 PRES = {"replay": replay_pres, "label": "bounded", "harness": "harness/C10/preserve.c", "flags": ["-I@BUILD@/shim_small", "-DVERIF_KINDFOLD=1", "-DVM_NPAIRS=6"], "link_src": ["harness/C15/stubs.c"],
         "units": [{"repo": "gc.c"}], "unwind": 8, "min_obligations": 3, "timeout": 200, "mem_gb": 3,
         "bound": "preservatives list of 0..4 entries drawn (symbolically) from 3 distinct objects",
@@ -107,7 +113,7 @@ META = {
  "explanation": "bounded deductive check of sweep / first-fit allocation on enumerated small heaps (contents symbolic), plus an unbounded (loop-free, full length domain) proof that the size the sweep steps over equals the size every constructor site requested; the whole-history statement (heap stays within a constant multiple of the live bound) is not decided",
  "trusted_base": ["CBMC 6.11.0 (MiniSat)", "harness/prelude.h substitutions"],
  "assumptions": ["CBMC memset with a symbolic length havocs pointer-typed fields: the request size of try_alloc is enumerated instead (32..128 bytes)"],
- "not_covered": ["the growth policy (sexp_alloc / sexp_grow_heap / sexp_make_heap: mmap / malloc of a fresh segment) and therefore the bound on total heap size over a history",
+ "not_covered": ["sexp_grow_heap / sexp_make_heap (mmap / malloc of a fresh segment, the size of the new segment) and the bound on total heap size over a whole history (the per-allocation growth decision of sexp_alloc is proved in group alloc_policy)",
                  "sexp_mark itself (reachability closure; every slot of a live object designates a live object): the mark bits are inputs of the sweep contract",
                  "multi-segment heap chains (one segment in every instance)", "heaps larger than 8 cells; objects larger than 8 cells",
                  "conservative stack scanning, fixed-chunk-size heaps, SEXP_USE_MALLOC / Boehm configurations"],
